@@ -166,6 +166,10 @@ def gen(tier, rng):
     for bs in ([], [["impl", "notes\n\n", "r"]], [["entry", "a", "k", [["x", "{1}"]], "r"], ["impl", "end\n\n\n", "r"]], [["failed", "f1\n\n"]]):
         for f in (mkfmt(), mkfmt("", "auto", "", True, "% {n}")):
             yield {"fmt": f, "blocks": bs, "ws": 1}
+    for col in ("auto", 5):
+        for ks1, ks2 in ((["k" * 20, "a"], ["x"]), (["a"], ["k" * 12]), ([], ["abc"])):
+            yield {"fmt": mkfmt(" ", col, "\n", False), "rename": 1,
+                   "blocks": [["entry", "a", "k", [[k, "{v}"] for k in ks1], "r"], ["entry", "a", "k2", [[k, "{w}"] for k in ks2], "r"]]}
     # a library object with a history: it held an entry with a long field key, its views were read, the entry was removed
     for col in ("auto", 7):
         for keys in (["abc", "k" * 9], ["a"], []):
@@ -260,7 +264,19 @@ def request(case):
     if not lean_representable(txt):
         return None
     lib = W.build_library(case["blocks"], case.get("same_line", False))
+    _rename(lib, case)
     return wire_request("c06.write", fmt_sx(case["fmt"]), W.enc_items(lib.blocks), chars_of=txt)
+
+
+def _rename(lib, case):
+    """the first entry was given another key after it had been added (entry.key = ...): it is written under its present key and
+    counts for the 'auto' column like every entry of the library"""
+    from bibtexparser import model as M
+    if case.get("rename"):
+        for b in lib.blocks:
+            if type(b) is M.Entry:
+                b.key = b.key + "_renamed"
+                break
 
 
 def _prewrite(lib, case, F):
@@ -268,6 +284,7 @@ def _prewrite(lib, case, F):
     entries between two writes): nothing remembered from the earlier write may reach the later one"""
     from bibtexparser import writer
     from bibtexparser import model as M
+    _rename(lib, case)
     hist = case.get("hist")
     if hist is not None:
         # the library held another entry before; its views were read while it did; then it was removed
